@@ -1,2 +1,91 @@
-import Crem.Model.CatchmentSpec
-/-! # C11 — theorems under construction (see DESIGN.md section 5) -/
+import Crem.Properties.C01
+import Crem.Proofs.CatchmentSums
+/-!
+# C11 — aggregates are consistent: total = sum of unit shares; total N = PN + DN
+
+Consequences of the central invariant `Canon` (C01), exact in ℚ, for every dataset satisfying
+`InitConsistent` / `KeysDistinct`, stated for canonical states and for every state reachable by a
+conformant history (`run D txs`, C01).  The sum ranges over the planning units of the dataset
+(`D.sed0`'s ids; `InitConsistent` says the three pollutant variables carry the same ids).
+
+The output side (`MakeEncodeable` / `SolutionBuilder` copies, `GET /api/v1/model`) is decided by the
+correspondence suites that re-sum the written numbers; it is not a statement about this model.
+
+Every `theorem` in this file is audited by `./check C11` (`#print axioms`).
+-/
+namespace Crem.Catchment
+
+/-- the planning units of the dataset -/
+def planningUnits (D : Data) : List PU := D.sed0.map (·.1)
+
+/-- sum of the per-planning-unit values of variable `v` -/
+def unitSum (D : Data) (s : State) (v : VarId) : Rat :=
+  ((planningUnits D).map (fun p => unitVal s v p)).sum
+
+/-- each of the six totals equals the sum of its planning-unit values -/
+theorem total_eq_sum {D : Data} {s : State} (hI : InitConsistent D) (hc : Canon D s) (v : VarId) :
+    total s v = unitSum D s v := by
+  have f := hI.facts
+  unfold unitSum planningUnits
+  cases v
+  · exact hc.sed.total_eq_sum f.dsed
+  · rw [f.kpn]; exact hc.pn.total_eq_sum f.dpn
+  · rw [f.kdn]; exact hc.dn.total_eq_sum f.ddn
+  · rw [f.kpn]; exact hc.tn.total_eq_sum f.dpn
+  · exact hc.ic.total_eq_sum f.dsed
+  · exact hc.oc.total_eq_sum f.dsed
+
+/-- total nitrogen = particulate + dissolved nitrogen in every planning unit -/
+theorem tn_eq_pn_plus_dn_unit {D : Data} {s : State} (hI : InitConsistent D) (hc : Canon D s) (p : PU) :
+    unitVal s .tn p = unitVal s .pn p + unitVal s .dn p :=
+  hc.unit_tn hI.facts p
+
+/-- total nitrogen = particulate + dissolved nitrogen for the catchment -/
+theorem tn_eq_pn_plus_dn {D : Data} {s : State} (hI : InitConsistent D) (hc : Canon D s) :
+    total s .tn = total s .pn + total s .dn := by
+  rw [total_eq_sum hI hc .tn, total_eq_sum hI hc .pn, total_eq_sum hI hc .dn]
+  unfold unitSum
+  rw [← sum_map_add]
+  congr 1
+  apply List.map_congr_left
+  intro p _
+  exact tn_eq_pn_plus_dn_unit hI hc p
+
+/-- **in every reachable state**: all three statements after any conformant history -/
+theorem aggregates_consistent {D : Data} (hI : InitConsistent D) (hK : KeysDistinct D.acts) (txs : List Tx) :
+    (∀ v, total (run D txs) v = unitSum D (run D txs) v) ∧
+    (∀ p, unitVal (run D txs) .tn p = unitVal (run D txs) .pn p + unitVal (run D txs) .dn p) ∧
+    total (run D txs) .tn = total (run D txs) .pn + total (run D txs) .dn :=
+  have hc := canon_of_history hI hK txs
+  ⟨total_eq_sum hI hc, tn_eq_pn_plus_dn_unit hI hc, tn_eq_pn_plus_dn hI hc⟩
+
+/-- every reported number of a reachable state lies on its reporting grid (10⁻³ t, 10⁻² $) -/
+theorem totals_on_grid {D : Data} (hI : InitConsistent D) (hK : KeysDistinct D.acts) (txs : List Tx) :
+    OnGrid 3 (total (run D txs) .sed) ∧ OnGrid 3 (total (run D txs) .pn) ∧
+    OnGrid 3 (total (run D txs) .dn) ∧ OnGrid 3 (total (run D txs) .tn) ∧
+    OnGrid 2 (total (run D txs) .ic) ∧ OnGrid 2 (total (run D txs) .oc) := by
+  have hc := canon_of_history hI hK txs
+  have htn := tn_eq_pn_plus_dn hI hc
+  refine ⟨hc.sed.onGrid, hc.pn.onGrid, hc.dn.onGrid, ?_, ?_, ?_⟩
+  · rw [htn]; exact hc.pn.onGrid.add hc.dn.onGrid
+  · show OnGrid 2 (run D txs).ic.total
+    rw [hc.ic.total, hc.ic.cells]
+    apply sumS_onGrid
+    intro c hcm
+    obtain ⟨x, _, h⟩ := mem_mapC hcm
+    rw [h]; exact costSum_onGrid _ _ _ _
+  · show OnGrid 2 (run D txs).oc.total
+    rw [hc.oc.total, hc.oc.cells]
+    apply sumS_onGrid
+    intro c hcm
+    obtain ⟨x, _, h⟩ := mem_mapC hcm
+    rw [h]; exact costSum_onGrid _ _ _ _
+
+/-! Non-vacuity / sanity (tests, labelled as such): the concrete dataset and history of C01. -/
+
+example : InitConsistent exData ∧ KeysDistinct exData.acts := by decide +kernel
+
+example : total exS .tn = unitSum exData exS .tn ∧ total exS .tn = total exS .pn + total exS .dn ∧
+    total exS .tn ≠ 0 ∧ unitVal exS .tn 1 ≠ unitVal exS .tn 2 := by decide +kernel
+
+end Crem.Catchment
